@@ -311,6 +311,34 @@ def run_numbers(name, m, sv, limit=120):
                     out.append(u)
             if len(out) >= limit:
                 return out
+        # runs that include the check character itself (numbers ending in 000, check digit 0): keep the run and
+        # repair at any single other position instead
+        for k in (2, 3, 4):
+            for ch in '09':
+                if n > k + 1 and all(c in D for c in v[n - k:]):
+                    t = v[:n - k] + ch * k
+                    if e2._accepts(m, t, {}):
+                        if t not in out:
+                            out.append(t)
+                        continue
+                    found = False
+                    for i in range(n - k):
+                        if t[i] not in D:
+                            continue
+                        for c in D:
+                            u = t[:i] + c + t[i + 1:]
+                            if u != t and e2._accepts(m, u, {}):
+                                if u not in out:
+                                    out.append(u)
+                                found = True
+                                break
+                        if found:
+                            break
+    # the same numbers with the run repeated as a suffix (formats with an optional all-zero suffix)
+    for u in list(out)[:40]:
+        for suf in ('000', '0000', '00'):
+            if e2._accepts(m, u + suf, {}) and u + suf not in out:
+                out.append(u + suf)
     return out
 
 
